@@ -7,6 +7,8 @@ import (
 	"fmt"
 	"os"
 	"path/filepath"
+	"runtime/debug"
+	"runtime/pprof"
 	"sort"
 	"strconv"
 	"strings"
@@ -41,7 +43,15 @@ func main() {
 	slog := flag.String("solverlog", "", "transcript of worker 0's solver")
 	list := flag.Bool("list", false, "list harness functions")
 	patterns := flag.String("patterns", "./pkg/...,./cmd/...", "packages to load")
+	prefix := flag.String("prefix", "", "comma-separated decision prefix to start from")
+	cpuprof := flag.String("cpuprofile", "", "write CPU profile")
 	flag.Parse()
+	debug.SetGCPercent(1000)
+	if *cpuprof != "" {
+		f, _ := os.Create(*cpuprof)
+		pprof.StartCPUProfile(f)
+		defer pprof.StopCPUProfile()
+	}
 
 	overlay := map[string][]byte{}
 	filepath.Walk(*hdir, func(p string, info os.FileInfo, err error) error {
@@ -86,6 +96,12 @@ func main() {
 		}
 		cfg := exec.Config{Workers: *workers, Solver: *solver, TimeoutMs: *timeout, LoopBound: *loop, StepBudget: *steps,
 			MaxViolations: *maxviol, MaxPaths: *maxpaths, Trace: *trace, Race: *race, Params: pm, SolverLog: *slog, SampleModels: 3}
+		if *prefix != "" {
+			for _, x := range strings.Split(*prefix, ",") {
+				n, _ := strconv.ParseInt(strings.TrimSpace(x), 10, 64)
+				cfg.Prefix = append(cfg.Prefix, n)
+			}
+		}
 		if *deadline > 0 {
 			cfg.Deadline = time.Now().Add(*deadline)
 		}
@@ -129,6 +145,9 @@ func main() {
 	if *out != "" {
 		b, _ := json.MarshalIndent(map[string]interface{}{"load_s": eng.LoadTime.Seconds(), "reports": reports}, "", " ")
 		os.WriteFile(*out, b, 0o644)
+	}
+	if *cpuprof != "" {
+		pprof.StopCPUProfile()
 	}
 	os.Exit(code)
 }
